@@ -94,6 +94,31 @@ func c02Eval(c c02Case) (ok bool, sig, detail string) {
 			return false, "residues-roomy-host", fmt.Sprintf("host whose residue slice has spare capacity: the host's residues changed to %q", roomy)
 		}
 	}
+	// non-initial representation of the guest: a GenBank record whose ORIGIN block was already decoded by an earlier
+	// read (e.g. a first insertion of the same guest); the result must be the one obtained with the plain guest
+	if c.N >= 1 && allLetters(guestRes) {
+		var out3 gts.Sequence
+		if p, msg := engine.Safely(func() {
+			gf := make(gts.FeatureSlice, len(glocs))
+			for k, l := range glocs {
+				gf[k] = gts.Feature{Key: fmt.Sprintf("g%d", k), Loc: l, Props: gts.Props{}}
+			}
+			out3 = applyInsertOp(c.Op, mkSeqKeys(hostRes, locs, keys), c.I, decodedGenBank(guestRes, gf))
+		}); p {
+			return false, "panic", "panic (decoded GenBank guest): " + msg
+		}
+		if got := string(out3.Bytes()); got != want {
+			return false, "residues-decoded-guest", fmt.Sprintf("guest is a GenBank record whose ORIGIN was already decoded: residues %q want %q", got, want)
+		}
+		a, b := out.Features(), out3.Features()
+		same := len(a) == len(b)
+		for k := 0; same && k < len(a); k++ {
+			same = a[k].Key == b[k].Key && printLoc(a[k].Loc) == printLoc(b[k].Loc)
+		}
+		if !same {
+			return false, "features-decoded-guest", fmt.Sprintf("%s at i=%d of a guest of %d residues held by a GenBank record whose ORIGIN was already decoded: features %v, with a plain guest %v", c.Op, c.I, c.N, b, a)
+		}
+	}
 	ff := out.Features()
 	if len(ff) != len(locs)+len(glocs) {
 		return false, "feature-count", fmt.Sprintf("%d features in the result, want %d", len(ff), len(locs)+len(glocs))
